@@ -19,6 +19,7 @@
    invariant (C04_redis_new). *)
 From GX.Model Require Import Base CMS Heap TopK Redis RedisCMS RedisTopK.
 From GX.Proofs Require Import ListLemmas CMSProofs HeapProofs TopKProofs TopKInv RedisCMSRefine TopKRedisInv.
+From GX.Proofs Require Import RedisTopKDoc NonVacuity.
 From Coq Require Import Permutation Sorted.
 
 Theorem C04_values_partial : forall t,
@@ -106,6 +107,9 @@ Example C04_premises_hold :
   Forall (fun e : bytes * N => 1 <= snd e) [([1], 5); ([2], 7); ([3], 1); ([1], 2)] /\
   total [([1], 5); ([2], 7); ([3], 1); ([1], 2)] < two64.
 Proof. eexists. split; [reflexivity|]. split; [vm_compute; congruence|]. split; [repeat constructor; vm_compute; congruence|vm_compute; reflexivity]. Qed.
+
+Example C04_redis_premises_hold : exists s t, RTI cpos1 2 3 s t [] /\ rt_k t = 3 /\ zstrict (heap_of s t).
+Proof. exact RTI_inhabited. Qed.
 
 Print Assumptions C04_values_partial.
 Print Assumptions C04_order_antisym.
